@@ -12,6 +12,15 @@ use mwsim::world::*;
 use staking::msg::{BatchesResponse, ExecuteMsg, IBCLifecycleComplete, IBCQueueResponse, MigrateMsg, QueryMsg, SudoMsg};
 use staking::types::{UnsafeNativeChainConfig, UnsafeProtocolChainConfig, UnsafeProtocolFeeConfig};
 
+/// another spelling of the same channel number: leading zeros dropped, or one added
+fn respell(ch: &str) -> String {
+    match ch.strip_prefix("channel-") {
+        Some(n) if n.len() > 1 && n.starts_with('0') => format!("channel-{}", n.trim_start_matches('0')),
+        Some(n) => format!("channel-0{n}"),
+        None => format!("{ch}0"),
+    }
+}
+
 fn is_auth_error(e: &str) -> bool {
     e.contains("Unauthorized") || e.contains("Caller is not admin") || e.contains("No pending owner")
 }
@@ -60,6 +69,13 @@ pub fn auth_probe(s: &Sim) -> StateObs {
         ("staker_via_other_channel", bech::hook_sender("channel-77", cfg.native_chain_config.staker_address.as_str(), PROTO_PREFIX)),
         ("collector_via_other_channel", bech::hook_sender("channel-77", cfg.native_chain_config.reward_collector_address.as_str(), PROTO_PREFIX)),
         ("other_native_account_hook", bech::hook_sender(&cfg.protocol_chain_config.ibc_channel_id, &n20(&s.w.k, "n1"), PROTO_PREFIX)),
+        // the same native accounts through a channel id that is numerically equal but spelled differently
+        ("staker_via_respelled_channel", bech::hook_sender(&respell(&cfg.protocol_chain_config.ibc_channel_id), cfg.native_chain_config.staker_address.as_str(), PROTO_PREFIX)),
+        ("collector_via_respelled_channel", bech::hook_sender(&respell(&cfg.protocol_chain_config.ibc_channel_id), cfg.native_chain_config.reward_collector_address.as_str(), PROTO_PREFIX)),
+        // accounts that appear in the configuration only as destinations
+        ("treasury", cfg.protocol_fee_config.treasury_address.as_ref().map(|a| a.to_string()).unwrap_or_else(|| p20("tre"))),
+        ("oracle", oracle_addr()),
+        ("validator_like", p20("val-like")),
     ];
     let monitors: Vec<String> = s.m.monitors.clone();
     let vprefix = cfg.native_chain_config.validator_address_prefix.clone();
